@@ -20,3 +20,34 @@ package ckks
 //@   shared parameters prec m rotGroup roots
 //@   fresh bigintCoeffs qHalf buffCmplx
 //@   copied buff
+
+// ---- the scalar / plaintext operand of an evaluator operation is not modified (property C09) ----
+//@ readonly Evaluator.Add op1
+//@   property C09
+
+//@ readonly Evaluator.AddNew op1
+//@   property C09
+
+//@ readonly Evaluator.Sub op1
+//@   property C09
+
+//@ readonly Evaluator.SubNew op1
+//@   property C09
+
+//@ readonly Evaluator.Mul op1
+//@   property C09
+
+//@ readonly Evaluator.MulNew op1
+//@   property C09
+
+//@ readonly Evaluator.MulRelin op1
+//@   property C09
+
+//@ readonly Evaluator.MulRelinNew op1
+//@   property C09
+
+//@ readonly Evaluator.MulThenAdd op1
+//@   property C09
+
+//@ readonly Evaluator.MulRelinThenAdd op1
+//@   property C09
